@@ -84,6 +84,18 @@ def oracle(probes, ops, obs, res):
                         found.append((idx, "C05:purge-missed-expired", "purge at %d left %s, expired in the reference" % (now, exp_lines[i])))
                 if any(n != old for n, old in o["u"]):
                     found.append((idx, "C05:purge-pair", "the purge reports pairs that are not (record, record): %r" % (o["u"],)))
+            # "reports each to listeners exactly once" is about every listener, not only the first of the set: async_updates hands ONE
+            # `records` object to all of them (a generator there is exhausted by the first -- seeded defect C05-w5-seed1)
+            if o["u"] is not None:
+                spy = sorted(n for n, _ in o["u"])
+                for c in o["calls"]:
+                    if c[0] == "u" and sorted(n for n, _ in c[2]) != spy:
+                        found.append((idx, "C05:purge-listener-pairs", "the purge at %d reported %d record(s) to the first listener of the set but "
+                                      "listener %d was handed %r" % (now, len(spy), c[1], [n for n, _ in c[2]][:4])))
+                        break
+                if o.get("legacy") is not None and sorted(o["legacy"]) != spy:
+                    found.append((idx, "C05:purge-listener-pairs", "the purge at %d reported %d record(s) to the first listener of the set but a listener that "
+                                  "only implements update_record was handed %r" % (now, len(spy), o["legacy"][:4])))
             if o["c1"] != prev_ids or o["c2"] != prev_ids:
                 found.append((idx, "C05:purge-listener-calls", "listeners %r registered; update called on %r, complete on %r" % (prev_ids, o["c1"], o["c2"])))
         if o["R"] is not None:
